@@ -83,6 +83,7 @@ def _strategy(draw):
         if a["type"] in ("chp", "plant") and draw(st.integers(0, 2)) == 0:
             # capacity as the caller's float array, one value per step (same length on the rolled grids)
             a["max_cap"] = {"vec": [float(a["max_cap"])] * T0}
+            a["start"] = a["end"] = None         # (one value per step of the asset: the whole grid)
         if a["type"] in ("chp", "plant") and draw(st.booleans()):
             # start / shutdown profiles without ramp_freq: interpreted in the main time unit of the grid at hand
             mx_ = a["max_cap"]["vec"][0] if isinstance(a["max_cap"], dict) else a["max_cap"]
